@@ -14,12 +14,14 @@ class AppLab:
         self.real = sigref.RealMatcher(ctx)
         self.decorate = True
 
-    def crowd(self, n, payload=b"x"):
-        """Fill the connection table with n validated flows (one accepted data segment each)."""
+    def crowd(self, n, payload=b"x", reset=True):
+        """Fill the connection table with n validated flows (one accepted data segment each; `payload` may be a list of
+        payloads used in turn)."""
         rng = self.ctx.rng
-        self.ctx.case(reset=True, record=False)
+        self.ctx.case(reset=reset, record=False)
         made = 0
         e = gen.endp(rng, self.cfg, False)
+        pls = payload if isinstance(payload, list) else [payload]
         while made < n:
             m = min(4000, n - made)
             tuples = [(1 + ((made + i) % 60000), 1 + (made + i) // 60000) for i in range(m)]
@@ -29,11 +31,53 @@ class AppLab:
                 if r.kind == "R":
                     ck = pkt.parse(r.reply).seq
                     self.ctx.claim_cookie(ck, (e.cip, e.sip, sp, dp))
-                    data.append(e.tcp(sp, dp, 2, (ck + 1) & 0xFFFFFFFF, PSH | ACK, payload))
+                    data.append(e.tcp(sp, dp, 2, (ck + 1) & 0xFFFFFFFF, PSH | ACK, pls[(sp + dp) % len(pls)]))
             rs = self.ctx.send_many(data)
             made += m
         self.ctx.case(reset=False)
         return rs[-1].table if rs else 0
+
+    def crowded_sessions(self, sessions, n1=66000, n2=66000):
+        """Multi-segment sessions in a busy responder.  sessions: list of (name, [segment, ...]).  Every session runs on a
+        connection of its own, twice on the same tuple: (a) alone - fresh table, nothing else; (b) crowded - n1 other
+        connections are validated first, then every session sends its SYN and first segment, then n2 more connections are
+        validated, then the sessions send their remaining segments (round-robin).  Returns [(name, segs, alone, crowded)]
+        with the masked application payload (or None) per segment; sessions whose handshake failed are left out.
+        Other connections - however many - are other flows: nothing may differ."""
+        from . import canon
+        ctx, rng = self.ctx, self.ctx.rng
+        tuples = []
+        for name, segs in sessions:
+            e = gen.endp(rng, self.cfg, rng.random() < 0.5)
+            tuples.append((pkt.Endp(e.cmac, e.smac, e.cip, e.sip), gen.rnd_port(rng), gen.rnd_port(rng), rng.getrandbits(32)))
+
+        def run(between):
+            flows, out = [], []
+            for (name, segs), (e, sp, dp, isn) in zip(sessions, tuples):
+                f = Flow(ctx, e, sp, dp, isn=isn)
+                ok = f.syn() is not None and f.sp == sp
+                flows.append(f if ok else None)
+                out.append([] if ok else None)
+                if ok:
+                    p = app_payload(f.data(segs[0]))
+                    out[-1].append(canon.mask_app(p) if p else None)
+            between()
+            for j in range(1, max(len(s[1]) for s in sessions)):
+                for (name, segs), f, o in zip(sessions, flows, out):
+                    if f is not None and j < len(segs):
+                        p = app_payload(f.data(segs[j]))
+                        o.append(canon.mask_app(p) if p else None)
+            return out
+
+        ctx.case(reset=True, record=False)
+        alone = run(lambda: None)
+        mix = [b"x", b"GET /", b"x", b"SSH-2.0-crowd\r\n"]
+        t1 = self.crowd(n1, payload=mix)
+        crowded = run(lambda: self.crowd(n2, payload=mix, reset=False))
+        ctx.stats["crowded_runs"] += 1
+        ctx.stats["crowded_table_size"] = max(ctx.stats["crowded_table_size"], t1)
+        ctx.case(reset=True)
+        return [(s[0], s[1], a, c) for s, a, c in zip(sessions, alone, crowded) if a is not None and c is not None]
 
     def identified(self, payload, transport):
         """Protocol id both matchers agree on, or None if they disagree (C10's business)."""
@@ -45,7 +89,7 @@ class AppLab:
         rng = self.ctx.rng
         v6 = rng.random() < 0.5 if v6 is None else v6
         a = Ask()
-        a.e = e or gen.endp(rng, self.cfg, v6)
+        a.e = e or gen.endp(rng, self.cfg, v6, own_src=0.03)      # peers that are the responder's own addresses included
         a.sp = gen.rnd_port(rng) if sp is None else sp
         a.dp = gen.rnd_port(rng) if dp is None else dp
         a.payload, a.transport, a.bare_ack = payload, transport, False
@@ -64,7 +108,7 @@ class AppLab:
         a.sp = f.sp         # (the handshake moves to another source port if the cookie is already taken in this table)
         # a data segment is any segment carrying PSH and ACK: sometimes decorate it (FIN for a client that writes and
         # closes at once, URG / ECE / CWR)
-        extra = rng.choice([0, 0, 0, 0, 0, 0, 1, 0x20, 0x40, 0x80]) if self.decorate else 0
+        extra = rng.choice([0, 0, 0, 0, 0, 0, 1, 0x20, 0x40, 0x80, 0x100]) if self.decorate else 0
         a.res = f.data(payload, flags=PSH | ACK | extra)
         a.rep = app_payload(a.res)
         if a.res.kind == "R":
